@@ -399,7 +399,7 @@ class Run:
         was_open = target.state is ConnectionState.OPEN
         if s["f"] == "addr":
             new = None if s["v"] is None else (HOSTS[s["v"][0]], PORTS[s["v"][1]])
-            if new is None and tname == "ctx" and self.case["mode"].startswith("reverse"):
+            if new is None and target is self.lay.context.server and self.case["mode"].startswith("reverse"):
                 return      # transparent-mode streams assert that context.server has an address: not a pool matter
             old = target.address
             self.model_lines.append(f"poke {tname} addr " + ("- -" if new is None else f"{s['v'][0]} {s['v'][1]}"))
@@ -429,10 +429,11 @@ class Check(PropertyCheck):
                   "HTTP/2->HTTP/1 — and the context-connection branch, register_connection incl. the one-flow-per-connection "
                   "re-dispatch, connection_spec_matches, the Server.__setattr__ guard) for ALL histories of requests, connection "
                   "results, state changes, error marks and attribute assignments (invariant by induction over the history): "
-                  "routed_to_matching, open_conn_immutable, failed_not_reused (+ waiting_matches, pending_never_errored). "
+                  "routed_to_matching, failed_not_reused, errored_never_routed, open_conn_immutable, setAttr_guard, "
+                  "waiting_matches (+ pending_poke_misroutes: the admissibility hypothesis is necessary). "
                   "The model is tied to the real HttpLayer/HttpStream/HttpClient/ServerTLSLayer/HttpUpstreamProxy stack run "
                   "through world.py: after every step of a history the routing decisions and the whole pool (attributes, state, "
-                  "error, waiting lists) are compared.")
+                  "error, tunnel entries, waiting lists) are compared.")
     level_note = ("trusted: Lean kernel; the differential tie (scenario grid + random histories); the model sees Connection.state "
                   "changes as inputs (they are made by the server and the HTTP/1, TLS and tunnel layers, which are run for real "
                   "but not modelled); OpenSSL is replaced by an identity cipher handed to the real ServerTLSLayer through its "
@@ -446,7 +447,7 @@ class Check(PropertyCheck):
             "port, scheme, via by assignment or by replacing server_conn), connect results, responses (keep-alive / close), "
             "peer closes, pokes of address/via; distinct = distinct history; non-trivial = at least one connection was opened.")
     budget = {"quick": 3000, "thorough": 60000}
-    time_budget = {"quick": 35, "thorough": 600}
+    time_budget = {"quick": 25, "thorough": 600}
     fingerprints = ["mitmproxy.proxy.layers.http:GetHttpConnection.connection_spec_matches",
                     "mitmproxy.proxy.layers.http:HttpLayer.get_connection",
                     "mitmproxy.proxy.layers.http:HttpLayer.register_connection",
@@ -491,8 +492,32 @@ class Check(PropertyCheck):
         rng.shuffle(grid)
         if tier == "quick": grid = grid[:700]
         yield from grid
+        if tier == "thorough":
+            yield from self.exhaustive(tier)
         while True:
             yield self._random(rng)
+
+    def exhaustive(self, tier):
+        """every history of <= 4 steps over a small alphabet (two destinations that differ in one coordinate)"""
+        import itertools
+        for second in ((1, 0, 0), (0, 0, 1), (2, 1, 0)):
+            alpha = [("A",), ("B",), ("Bv",), ("c", 0), ("c", 1), ("r", 0)]
+            for mode in ("regular", "upstream"):
+                for client in ("h2", "h1"):
+                    for fates in (["ok"], ["tcp_fail", "ok"], ["ok", "tls_fail"]):
+                        for n in (2, 3, 4):
+                            for seq in itertools.product(alpha, repeat=n):
+                                if seq[0][0] not in "AB": continue
+                                steps, rid = [], 0
+                                for a in seq:
+                                    if a[0] == "A": rid += 1; steps.append(self._req(rid))
+                                    elif a[0] == "B": rid += 1; steps.append(self._req(rid, *second))
+                                    elif a[0] == "Bv":
+                                        rid += 1
+                                        steps.append(self._req(rid, *second, rw=[{"at": "request", "via": ["replace", None if mode == "upstream" else 0]}]))
+                                    elif a[0] == "c": steps.append({"k": "connect", "i": a[1]})
+                                    else: steps.append({"k": "respond", "c": a[1]})
+                                yield {"mode": mode, "client": client, "fates": fates, "steps": steps}
 
     def _random(self, rng):
         mode = rng.weighted([(4, "regular"), (3, "upstream"), (1, "reverse_lazy"), (2, "reverse_open"), (1, "reverse_err")])
